@@ -159,7 +159,13 @@ func HarnessC16Pool() {
 	bad := mkPESPattern(0x100, 10, true, 6)
 	bad.bytes[4], bad.bytes[5] = 0x01, 0x00
 	var pk [][]byte
+	// every branch of parseData takes a buffer from the pool: a CAT unit (PID 1: private, produces no data), a unit on
+	// an unknown PID that is neither PSI nor PES, the PSI and PES units of the stream, and the failing PES
+	cat := &sUnit{pid: PIDCAT, kind: 3, bytes: []byte{0x00, 0x01, 0xb0, 0x05, 0x11, 0x22, 0x33, 0x44, 0x55}}
+	junk := &sUnit{pid: 0x1abc, kind: 0, bytes: []byte{0x12, 0x34, 0x56, 0x78, 0x9a}}
+	pk = append(pk, packetize(cat, 2, 184, false)...)
 	pk = append(pk, s.pkts...)
+	pk = append(pk, packetize(junk, 7, 184, false)...)
 	pk = append(pk, packetize(bad, 9, 184, false)...)
 	tail := mkPESPattern(0x100, 4, true, 7)
 	pk = append(pk, packetize(tail, 10, 184, false)...)
